@@ -537,6 +537,11 @@ FIXED = [
     ([("R", BASE)], [("splitBars", [0], 0, True), ("barCopy", 1), ("barSeq", 3), ("transpose", 4, 2)]),
     ([("R", BASE)], [("splitBars", [0], 0, False), ("mkTrk", [1, 2]), ("trkCopy", 3), ("trkBars", 4),
                      ("barTranspose", 5, 40)]),
+    # second repair of D37: Bar.copy reads self.sequence.rel first — a bar whose relative view an absolute-level operation left stale
+    # is copied (the copy regenerates the relative view of the ORIGINAL), alone and inside a track
+    ([("R", BASE)], [("splitBars", [0], 0, False), ("barSeq", 1), ("quantise", 3), ("barCopy", 1), ("readAbs", 3)]),
+    ([("R", BASE)], [("splitBars", [0], 0, False), ("barSeq", 2), ("cutoff", 3, 24, 12), ("mkTrk", [1, 2]), ("trkCopy", 4),
+                     ("mkCmp", [4, 5]), ("cmpCopy", 6)]),
     ([("R", BASE), ("R", BASE[:4])], [("splitBars", [0, 1], 0, True), ("readAbs", 0)]),
     ([("R", BASE), ("R", BASE[4:])], [("merge", 0, [1]), ("setChannel", 1, 3), ("readRel", 0)]),
     ([("R", BASE)], [("cmpFromSequences", [0], 0), ("cmpCopy", 1), ("cmpTrks", 2), ("trkToSequence", 3),
